@@ -88,6 +88,8 @@ FIXED = [
     "fixed: property=C06 7043904 `belt.enable = s > 0; Bundle r = belt.output; lamp.enable = any(r) > 5; Signal u = s * 2;`: the operand wire into the belt and the wire reading its contents shared one colour on the belt's single connector, so the lamp counted s (and u's combinator saw the belt contents)",
     "fixed: property=C10 0d0dfca `func f(Signal p, Signal c) { Signal q = p * 2; Signal r = (p > 3 && c > 1) : 1; return q + r; }` called with a literal: constant propagation folded q and dropped the constant p although the two-row decider (likewise a wire merge, memory write or entity condition) still read it; optimised result 10, unoptimised 11",
     "fixed: property=C20 f2407a4 `Bundle b = {a, k} * 2;` (any bundle operation whose left operand is a bundle literal or bundle variable): the each-combinator computing b was described as `[file] b (*)` without the declaration line",
+    "fixed: property=C15 2260f4a `func f(Signal s, Entity e) { Signal loc = s * 3; e.enable = loc > 10; return loc; }` with `Signal y = f(a, lamp) | \"signal-B\";`: the caller's projection was folded into loc's combinator although the lamp's condition (or a second local) already read loc on its own type; the lamp compared a signal nothing produced",
+    "fixed: property=C15 dcc7141 a callee's `Memory m: \"signal-N\"` next to the caller's `Memory m: \"signal-M\"`: memory information was kept by name only and not restored after the inlined call, so the caller's cell took the callee's type (spurious type mismatch) and the caller's later m.read() read the callee's cell",
     "fixed: property=C01 832242e `(c : k) && x` / `(c : k) || (d : j)` with constants other than 0/1 took the boolean shortcut (x*y, (x+y)>0) and yielded k or 0 instead of 1",
     "fixed: property=C01 7701d37 a comparison with an integer literal on the left (`3 < a`) was emitted as `signal-0 < a`",
 ]
